@@ -90,6 +90,7 @@ fn main() {
                 std::env::var("VERIF_BUDGET_S").ok().and_then(|s| s.parse().ok()).unwrap_or(tier.pick(1500, 7200)),
             );
             let ctx = Ctx::new(prop, tier, seed_from_env(), budget);
+            common::start_hang_watchdog(&ctx);
             run_monitor(&ctx)
         }
         Some("child") => mon_par::child_main(&args[2..]),
@@ -134,6 +135,7 @@ fn main() {
                 (Some(s), Some(i)) => {
                     ctx.only = Some((s, i));
                     ctx.threads = 1;
+                    common::start_hang_watchdog(&ctx);
                     run_monitor(&ctx)
                 }
                 _ => {
